@@ -639,6 +639,20 @@ class SimLock:
         return self.owner is self.k.current
 
 
+TIMEOUT_MAX = 9223372036.0       # threading.TIMEOUT_MAX on 64-bit CPython
+
+
+def check_timeout(timeout):
+    """CPython refuses timeouts it cannot convert to its C time type:
+    Condition.wait / Lock.acquire / time.sleep raise instead of waiting."""
+    if timeout is None or isinstance(timeout, bool):
+        return
+    if timeout != timeout:
+        raise ValueError('Invalid value NaN (not a number)')
+    if timeout > TIMEOUT_MAX:
+        raise OverflowError('timestamp out of range for platform time_t')
+
+
 class SimCondition:
     def __init__(self, kernel, lock=None):
         self.k = kernel
@@ -661,6 +675,7 @@ class SimCondition:
         me = k.current
         if lock.owner is not me:
             raise RuntimeError('cannot wait on un-acquired lock')
+        check_timeout(timeout)
         if k.frozen:
             return False
         k.step()
